@@ -189,6 +189,9 @@ def _workbooks():
                 {'A1': CIRC, 'B1': CIRC, 'D1': ERR}))
     out.append(('guard-decided-by-an-expression-of-the-cycle/if-isnumber', {'A1': '=IF(ISNUMBER(@B1),@B1,7)', 'B1': '=@A1*2', 'D1': '=@B1+1'},
                 {'A1': CIRC, 'B1': CIRC, 'D1': ERR}))
+    # a self reference inside an error guard of the SELECTED branch: the cycle cannot be avoided (KF-C10-2: the tree cuts it)
+    out.append(('self-cycle-inside-an-error-guard-of-the-selected-branch', {'B1': False, 'A1': '=IF(@B1,1,IFERROR(@A1+1,5))', 'C1': '=@A1+1'},
+                {'A1': CIRC, 'B1': False, 'C1': ERR}))
     out.append(('two-independent-cycles', {'A1': '=@B1', 'B1': '=@A1', 'C1': '=@D1', 'D1': '=@C1', 'E1': 1, 'F1': '=@E1+1'},
                 {'A1': CIRC, 'B1': CIRC, 'C1': CIRC, 'D1': CIRC, 'E1': 1, 'F1': 2}))
     return out
@@ -351,7 +354,8 @@ BOUNDED = [
           '36 small workbooks (guarded / unguarded back edges through IF, IFS, IFERROR, IFNA, ranges, self references, independent cycles, two guarded back edges into one formula; 5 guard values) '
           'in 2 (quick) / 8 (thorough) cell orders: termination within 20 s, unavoidable cycles are marked, dependents see an error, everything else '
           'keeps its ordinary value', parallel=True, classify=lambda case, detail: (
-              'KF-C10-1' if case[0] == 'range-inside-an-unselected-branch' and 'circular-reference error' not in detail.split('expected')[-1] else None)),
+              'KF-C10-1' if case[0] == 'range-inside-an-unselected-branch' and 'circular-reference error' not in detail.split('expected')[-1] else (
+                  'KF-C10-2' if case[0] == 'self-cycle-inside-an-error-guard-of-the-selected-branch' else None))),
 ]
 
 PROPERTIES = {
